@@ -1746,13 +1746,12 @@ class VM:
             if len(args) > 1 and args[1] is not UNDEFINED:
                 end = relative(args[1])
 
-            # Create new typed array of same type
-            result = type(arr)(max(0, end - begin))
-            for i in range(begin, end):
-                result.set_index(i - begin, arr.get_index(i))
-            # Share the same buffer if the original has one
-            if hasattr(arr, "_buffer"):
-                result._buffer = arr._buffer
+            # A new view on the same buffer: the two arrays share their elements
+            result = type(arr)(
+                max(0, end - begin),
+                arr._buffer,
+                arr._byte_offset + begin * arr._element_size,
+            )
             return result
 
         def set_fn(*args):
